@@ -36,7 +36,9 @@ func par(n int, f func(i int)) {
 // standard zones: z1 -> set s1, z2 -> set s2, z3 in no set
 func stdSets() map[string][]string {
 	// a parent listed before one of its sub-domains (s1) and after one (s2): both orders must keep the parent
-	return map[string][]string{"s1": {"domain:z1.test", "# comment", "domain:www.z1.test"}, "s2": {"deep.sub.z2.test", "z2.test", "full:exact.z3.test"}}
+	// (the matcher keeps labels longer than 24 octets in a second table: the same two orders there)
+	return map[string][]string{"s1": {"domain:z1.test", "# comment", "domain:www.z1.test", "img.a-label-of-more-than-24-octets.z1x.test", "a-label-of-more-than-24-octets.z1x.test"},
+		"s2": {"deep.sub.z2.test", "z2.test", "full:exact.z3.test", "another-label-of-more-than-24-octets.z2x.test", "cdn.another-label-of-more-than-24-octets.z2x.test"}}
 }
 
 // ---------------------------------------------------------------- C03 (+C12 response side, C04 light)
@@ -180,11 +182,12 @@ func modeC10(rulesFile string) {
 				in.close()
 				return
 			}
-			names := []string{"a.z1.test.", "z1.test.", "b.z2.test.", "exact.z3.test.", "other.z3.test.", "z9.test.", "A.Z1.TEST."}
+			names := []string{"a.z1.test.", "z1.test.", "b.z2.test.", "exact.z3.test.", "other.z3.test.", "z9.test.", "A.Z1.TEST.",
+				"a-label-of-more-than-24-octets.z1x.test.", "js.a-label-of-more-than-24-octets.z1x.test.", "x.another-label-of-more-than-24-octets.z2x.test."}
 			par(len(names), func(i int) {
 				lst := []string{"udp", "tcp"}[i%2]
 				q := mkq(uniq() + ".r0t60d0." + names[i])
-				if names[i] == "exact.z3.test." || names[i] == "z1.test." {
+				if names[i] == "exact.z3.test." || names[i] == "z1.test." || strings.Contains(names[i], "24-octets") {
 					q = mkq(names[i])
 				}
 				q.id = uint16(li*16 + i)
